@@ -24,7 +24,12 @@ correspondence check on dumps of real subtrees; helpers are the *generated* defi
 * reached subtree is marked / unreached subtree is the very same value .... `edit_marks_root`,
   `edit_untouched_same`
 * stand-alone helpers and stored ranges move by the same map φ ............. `point_edit_eq_phi`,
-  `range_edit_eq_phi`
+  `range_edit_eq_phi` (closed ranges), `range_edit_open_end` (open end `UINT32_MAX` stays open);
+  the tree's STORED ranges: `treeEdit` maps `ts_range_edit` over them, and the judge applied to the
+  real tree's ranges accepts exactly that ........ `rangesJudge_model`;
+  `ts_node_edit` is `ts_point_edit` on the node's start (three assignments in node.c): not ported,
+  its real results are compared with the generated `ts_point_edit` and judged against φ and the new
+  text on every explored node (helper lines `hn`) — judged, not proved
 
 Boundary conventions fixed here (read off the C code): the change is the half-open byte interval
 [start, old_end), a pure insertion being the point `start`; a node whose content ends exactly at
